@@ -63,9 +63,10 @@ def cca(hbh=51, e2e=52, host="peer1.x", rc=2001, drop=()):
     return f"CC:64:4:{hbh}:{e2e}:{kv}"
 
 
-def unk(hbh=61, e2e=62, host="peer1.x", flags=128, cmd="UN", with_oh=True, realm=REALM):
+def unk(hbh=61, e2e=62, host="peer1.x", flags=128, cmd="UN", with_oh=True, realm=REALM, app=4):
     oh = f"oh={host}," if with_oh else ""
-    return f"{cmd}:{flags}:4:{hbh}:{e2e}:sid=s;9,{oh}or={REALM},dr={realm}"
+    dr = f",dr={realm}" if realm else ""
+    return f"{cmd}:{flags}:{app}:{hbh}:{e2e}:sid=s;9,{oh}or={REALM}{dr}"
 
 
 _uniq = [100]
@@ -89,7 +90,11 @@ def message_pool(rng: random.Random, hosts=("peer1.x", "peer2.x"), unique=False)
         ccr(hb, ee, h, drop=("oh",)), ccr(hb, ee, h, flags=128),
         cca(hb, ee, h), cca(hb, ee, h, drop=("rc",)), cca(hb, ee, h, drop=("oh",)),
         unk(hb, ee, h), unk(hb, ee, h, with_oh=False), unk(hb, ee, h, cmd="MO"), unk(hb, ee, h, flags=0),
-        unk(hb, ee, h, flags=144), f"AC:192:3:{hb}:{ee}:sid=a;1,oh={h},or={REALM},dr={REALM},acct=3,rt=1,rn=0",
+        unk(hb, ee, h, flags=144),
+        # requests the node answers itself, of commands without a class, with and without Origin-Host
+        unk(hb, ee, h, with_oh=False, realm="foreign.realm"), unk(hb, ee, h, with_oh=False, app=77),
+        unk(hb, ee, h, with_oh=False, realm=None), unk(hb, ee, h, realm="foreign.realm"), unk(hb, ee, h, app=77, cmd="MO"),
+        f"AC:192:3:{hb}:{ee}:sid=a;1,oh={h},or={REALM},dr={REALM},acct=3,rt=1,rn=0",
     ]
 
 
